@@ -18,7 +18,7 @@ SPEC = {
                     "no Stop/Break (after the close of errChan the monitor fans out nil: C19/K5)"],
 }
 META = {
-  "text": "Coq theorems (Props/C14.v, 8, closed under the global context) over Model/WQ.v for ALL W, L, label sequences: for every subscriber and error value, deliveries + what the fan-out in progress still owes = fan-outs of that value that include the subscriber (C14_accounting); every fan-out goes to exactly the subscribers registered before it, each once, in particular all registered before the item was enqueued (C14_recipients); hence with the monitor idle a subscriber registered before the fan-out has received the value exactly once and a later one never (C14_exactly_once); whatever is received was fanned out and is the non-nil result of a work function - nil results produce no delivery (C14_only_errors); the monitor's state influences no step of the dispatcher or of workers holding no error (C14_others_progress) and a pending error at a quiescent state means the monitor waits for a subscriber (C14_pending_error_waits_for_subscriber); Errors() is enabled at any moment and changes only the subscriber list (C14_subscribe_safe). F14 (subscriber slice ranged without its mutex) is a data race, i.e. outside the interleaving model: it was reported by the -race stress of this check and fixed; since then C14_subscribers_race_free states race freedom of Queue.errorSubscribers (Errors vs the monitor goroutine start.func2) over the lock skeleton regenerated from workqueue/queue.go on every run.",
+  "text": "Coq theorems (Props/C14.v, 8, closed under the global context) over Model/WQ.v for ALL W, L, label sequences: for every subscriber and error value, deliveries + what the fan-out in progress still owes = fan-outs of that value that include the subscriber (C14_accounting); every fan-out goes to exactly the subscribers registered before it, each once, in particular all registered before the item was enqueued (C14_recipients); hence with the monitor idle a subscriber registered before the fan-out has received the value exactly once and a later one never (C14_exactly_once); whatever is received was fanned out and is the non-nil result of a work function - nil results produce no delivery (C14_only_errors); the monitor's state influences no step of the dispatcher or of workers holding no error (C14_others_progress) and a pending error at a quiescent state means the monitor waits for a subscriber (C14_pending_error_waits_for_subscriber); Errors() is enabled at any moment and changes only the subscriber list (C14_subscribe_safe). F14 (subscriber slice ranged without its mutex) is a data race, i.e. outside the interleaving model: it was reported by the -race stress of this check and fixed; since then C14_subscribers_race_free states race freedom of Queue.errorSubscribers (Errors vs the monitor goroutine, entry NewQueue.go1.go1; mutex and slice found by type) over the lock skeleton regenerated from workqueue/queue.go on every run.",
   "design_ref": "DESIGN.md section 7, C14 (and 'Work queue model', Appendix C)",
   "note": "Trusted: Coq kernel + vm_compute; hand-written model validated by this run's scripts; Go runtime primitives by contract. Race freedom of errorSubscribers: lockset theorem over the regenerated skeleton (translator trusted, fail-closed) plus the -race stress; other unsynchronised fields of Queue (breaked, the heap behind workQueue) are reported in notes/C14.md and are not part of C14.",
   "technique": "Coq invariant proof (delivery accounting) over an interleaving model + scripted differential correspondence (vm_compute) + free-running -race stress",
